@@ -43,6 +43,8 @@ class Monitor:
         self.label = {}
         self.events = None  # per-thread event logs when recording: {thread_name: [(kind, loc)]}
         self.gate = None  # callable(thread_name, event_index) used to force a schedule
+        self.sampler = None  # callable() invoked at the first few store events of a call (transient global state)
+        self.samples_left = 0
 
     def add(self, obj):
         self.shared.add(id(obj))
@@ -59,6 +61,9 @@ class Monitor:
             self.gate(t, len(ev) - 1)
 
     def on_setattr(self, obj, name, value):
+        if self.active and self.sampler is not None and self.samples_left > 0:
+            self.samples_left -= 1
+            self.sampler()
         if not self.active or id(obj) not in self.shared:
             return
         try:
@@ -250,11 +255,23 @@ def no_interference(make, v, probes=()):
     el = share_tree(el)
     reg_before = dict(format_checker._callable_register)
     g_before = global_state()
+    transient = []
+
+    def sample():
+        g_now = global_state()
+        for key in g_now:
+            if g_before.get(key) != g_now[key] and key not in transient:
+                transient.append(key)
+
+    MON.sampler, MON.samples_left = sample, 4
     MON.active = True
     try:
         verdict(el, jcopy(v))
     finally:
         MON.active = False
+        MON.sampler = None
+    for key in transient:
+        MON.effective.append(("global", ".".join(key[:-1]), key[-1] + " (transient)", None))
     if dict(format_checker._callable_register) != reg_before:
         return False
     g_after = global_state()
@@ -276,6 +293,14 @@ def no_interference(make, v, probes=()):
             for b in vals:
                 if not threads_equal_sequential(make, a, b, 60):
                     why = "free-running threads on values %r / %r differ from their solo runs (process-global container %s written during validation)" % (a, b, writes)
+                    break
+            if why:
+                break
+        for a in ([] if why else vals):
+            if isinstance(a, (list, dict)) and len(a) > 0:
+                big = {"k": [a, a, a]} if False else a
+                if not threads_equal_sequential(make, big, big, 150, share=True):
+                    why = "free-running threads validating documents that share the container object %r by identity differ from their solo runs (process-global container %s written during validation)" % (a, writes)
                     break
             if why:
                 break
@@ -512,9 +537,14 @@ def harmful_schedule(make, values):
 
 
 # ------------------------------------------------------------------ threads, free running (sanity layer)
-def threads_equal_sequential(make, v1, v2, rounds=200):
-    """run the two calls on real threads (barrier start, many rounds) and compare with the solo runs + tree snapshot"""
+def threads_equal_sequential(make, v1, v2, rounds=200, share=False):
+    """run the two calls on real threads (barrier start, many rounds) and compare with the solo runs + tree snapshot.
+    share=True: the threads are handed the value OBJECTS themselves (documents sharing containers by identity)"""
     from vf.common import verdict, result_eq, snapshot, jcopy
+
+    if share:
+        keep = jcopy
+        jcopy = lambda x: x
 
     el = make()
     s0 = snapshot(el)
@@ -562,6 +592,7 @@ TEMPLATES = {
     "composition": ("m: int", 'parse_s({"anyOf": [{"type": "object", "title": "A", "required": ["a"], "properties": {"a": {"minimum": m}}}, {"type": "integer"}], "not": {"const": 3}, "oneOf": [{"type": "object", "title": "B"}, {"type": "integer", "maximum": m}]})', "Union[int, Dict[str, int]]", ["(not isinstance(v, dict)) or (len(v) <= 1 and all(k in ('a', 'b') for k in v))"]),
     "inherited": ("m: int", '_child(m)', DV, DPRE),
     "mixed_types": ("m: int", 'Object.inline("Mx", properties={"s": Property(String(maxLength=2)), "i": Property(Integer(minimum=m)), "l": Property(Array(Boolean())), "u": Property(Element()), "n": Property(Null())})', "Dict[str, Union[int, str, None]]", ["len(v) <= 2", "all(k in ('s', 'i', 'u', 'n') for k in v)", "all((not isinstance(x, str)) or len(x) <= 1 for x in v.values())"]),
+    "nested_plain_containers": ("m: int", 'Element(properties={"tags": Property(Array(String(maxLength=3), uniqueItems=True)), "meta": Property(Element(additionalProperties=Array(Integer(minimum=m))))}, items=Array(Integer()))', "Dict[str, List[int]]", ["len(v) <= 1", "all(k in ('tags', 'x') for k in v)", "all(len(x) <= 2 for x in v.values())"]),
     "format_uuid": ("m: int", 'AnyOf(String(format="uuid", minLength=m), Element(properties={"a": Property(String(format="uuid"), required=True)}, maxProperties=1))', "Union[int, str, Dict[str, str]]", ["not isinstance(v, str) or len(v) <= 2", "(not isinstance(v, dict)) or (len(v) <= 1 and all(k in ('a', 'b') for k in v) and all(len(x) <= 1 for x in v.values()))"]),
     "format_enum": ("m: int", 'Element(format="uuid", enum=["x", m, [m]], const=m, properties={"a": Property(String(format="nope"))})', "Union[int, str, Dict[str, int]]", ["not isinstance(v, str) or len(v) <= 2", "(not isinstance(v, dict)) or (len(v) <= 1 and all(k in ('a', 'b') for k in v))"]),
 }
@@ -588,6 +619,7 @@ PROBES = {
     "composition": '[{"a": m}, {"a": m - 1}, 3, m, m + 1, "s"]',
     "inherited": '[{"a": m, "b": 1}, {"a": m - 1, "b": 1}, {"a": m}, {"a": m, "b": 1, "c": "x"}]',
     "mixed_types": '[{"s": "ab", "i": m}, {"s": 1}, {"i": "x"}, {"l": [True], "u": 1}, {"l": [1]}, {"n": None, "s": "a"}, {"n": 0}]',
+    "nested_plain_containers": '[{"tags": ["a", "b", "c", "d", "e", "f", "g", "h"] * 4, "meta": {"p": list(range(m, m + 40)), "q": list(range(m, m + 40))}}, [[m] * 50, [m + 1] * 50, [m] * 50], {"tags": ["a", "a"]}]',
     "format_uuid": '["123e4567-e89b-12d3-a456-426614174000", "not-a-uuid", {"a": "123e4567-e89b-12d3-a456-426614174000"}, {"a": "zz"}, 5]',
     "format_enum": '["x", m, [m], "y", {"a": "s"}, {"a": 1}]',
 }
@@ -602,7 +634,7 @@ def make():
 return no_interference(make, v, {PROBES[name]})
 """
         hs.append(mk(f"c14_noninterference_{name}", f"{hargs}, v: {vt}", pre, body, timeout=200, group="step1",
-                     tier="quick" if name in ("class_required", "element_required", "parsed_typed", "tuple_items", "composition", "inherited", "format_uuid", "mixed_types") else "thorough",
+                     tier="quick" if name in ("class_required", "element_required", "parsed_typed", "tuple_items", "composition", "inherited", "format_uuid", "mixed_types", "nested_plain_containers") else "thorough",
                      covers=f"{make}: no effective write to a pre-existing object during el(v)"))
     hs.append(mk("c14__monitor_sees", "m: int", [], 'return not monitor_sees(lambda: Object.inline("M", properties={"a": Property(Integer(minimum=m))}))', kind="witness", timeout=30))
     return hs
